@@ -98,6 +98,20 @@ func (c *Control) InjectUDPPacket(p *udp.Packet) {
 	c.f.outside.(*udp.TesterConn).Send(p.Copy())
 }
 
+// InjectUDPPacketOn is InjectUDPPacket for the socket of reader routine q (see udp.TesterMultiReader).
+func (c *Control) InjectUDPPacketOn(q int, p *udp.Packet) {
+	c.f.writers[q%len(c.f.writers)].(*udp.TesterConn).Send(p.Copy())
+}
+
+// GetUDPTxChans returns the transmit side of every routine's socket.
+func (c *Control) GetUDPTxChans() []<-chan *udp.Packet {
+	var o []<-chan *udp.Packet
+	for _, w := range c.f.writers {
+		o = append(o, w.(*udp.TesterConn).TxPackets)
+	}
+	return o
+}
+
 // InjectTunPacket pushes an IP packet onto the tun interface.
 func (c *Control) InjectTunPacket(packet []byte) {
 	c.f.inside.(*overlay.TestTun).Send(packet)
